@@ -44,6 +44,8 @@ type vpTransport struct {
 	isWS        bool // handed out by the NewWS stub: one ReadPacket = one websocket message
 	errWithLast error // io.Reader contract: the LAST scripted read returns its bytes together with this error (n > 0, err != nil)
 	pauseAt     int  // 1+index of the packet before which the client stays silent for a long time (0: never)
+	failWriteAt int  // 1+index of the WritePacket call that fails (the client connection was reset); later ones fail too
+	nwrites     int
 	countOverlaps bool // keep the two counters below
 	inflight    int  // WritePacket calls in progress
 	closedCh    chan struct{}
@@ -101,6 +103,10 @@ func (t *vpTransport) WritePacket(b []byte) (int, error) {
 			t.inflight--
 			vpMu.Unlock()
 		}()
+	}
+	t.nwrites++
+	if t.failWriteAt > 0 && t.nwrites >= t.failWriteAt {
+		return 0, errors.New("vp: write: connection reset by peer")
 	}
 	c := make([]byte, len(b))
 	copy(c, b)
